@@ -84,6 +84,54 @@ def wrong_length(code, n):
     sx.fail("wrong-length bytes decoded into a number", "C04/decode/%s/wrong-length-%d" % (name, n))
 
 
+def decode_after_rejection(code, n):
+    """a refused wrong-length pattern leaves nothing behind: a right-length pattern of the same type (any variable, the
+    packers are shared) decodes to its value afterwards"""
+    name, w, signed = S301.INT_TYPES[code]
+    var = _var(code)
+    try:
+        var.decode_raw(sx.fresh_bytes("junk", n))
+    except Exception:
+        pass
+    data = sx.fresh_bytes("d", w // 8)
+    try:
+        val = _var(code).decode_raw(data)
+    except Exception as e:
+        sx.observe("exc", type(e).__name__)
+        sx.fail("valid pattern refused after a rejected one", "C04/decode/%s/after-rejection-raises" % name)
+        return
+    sx.prove(val == sx.le_int(sx.items(data), signed), "decoded value after a rejected pattern",
+             "C04/decode/%s/after-rejection" % name)
+    sx.reach("after-rejection")
+
+
+def retyped(code1, code2):
+    """the codec follows the variable's current data type: one variable object is used as code1, then retyped to code2"""
+    var = _var(code1)
+    lo1, hi1 = S301.int_range(code1)
+    var.encode_raw(sx.fresh_int("v1", lo1, hi1))
+    len(var)
+    var.data_type = code2
+    name2, w2, signed2 = S301.INT_TYPES[code2]
+    lo2, hi2 = S301.int_range(code2)
+    v2 = sx.fresh_int("v2", lo2, hi2)
+    tag = "C04/retyped/%s->%s" % (S301.NAMES[code1], name2)
+    sx.prove(len(var) == w2, "bit length follows the data type", tag + "/len")
+    try:
+        data = var.encode_raw(v2)
+    except Exception as e:
+        sx.observe("exc", type(e).__name__)
+        sx.fail("in-range value refused after retyping", tag + "/raises")
+        return
+    it = sx.items(data)
+    sx.prove(len(it) == w2 // 8 and sx.all_([it[i] == sx.byte_of(v2, i) for i in range(min(len(it), w2 // 8))]) is not False,
+             "encoding follows the data type", tag + "/length")
+    if len(it) == w2 // 8:
+        sx.prove(sx.all_([it[i] == sx.byte_of(v2, i) for i in range(w2 // 8)]), "encoding after retyping", tag + "/bytes")
+        sx.prove(var.decode_raw(data) == v2, "decoding after retyping", tag + "/decode")
+    sx.reach("retyped")
+
+
 def bit_length(code):
     var = _var(code)
     sx.observe("len", len(var))
@@ -219,6 +267,13 @@ def _cp(ch):
 def jobs(tier):
     out = []
     for code in S301.INT_TYPES:
+        w = S301.INT_TYPES[code][1] // 8
+        for n in (w + 1, 8, 9):
+            if n != w:
+                out.append(dict(func="decode_after_rejection", params=dict(code=code, n=n)))
+    for c1, c2 in ((0x03, 0x07), (0x07, 0x03), (0x05, 0x16), (0x10, 0x1B), (0x15, 0x02), (0x18, 0x06)):
+        out.append(dict(func="retyped", params=dict(code1=c1, code2=c2)))
+    for code in S301.INT_TYPES:
         out.append(dict(func="int_encode", params=dict(code=code)))
         out.append(dict(func="int_decode", params=dict(code=code)))
         out.append(dict(func="int_decode", params=dict(code=code, container="bytearray")))
@@ -262,7 +317,7 @@ META = dict(
                  "CPython's struct by the native witness run and by the repo suite under the loader)",
                  "z3 FP theory for REAL32/REAL64 conversions"],
     stubs=["struct", "bytes", "bytearray", "dict displays -> SymDict", "logging -> null"],
-    required_reach=["rejected", "encoded", "decoded", "wrong-length-rejected", "len", "bool", "real",
+    required_reach=["rejected", "encoded", "decoded", "after-rejection", "retyped", "wrong-length-rejected", "len", "bool", "real",
                     "real32-overflow-rejected", "real-decode", "real-specials", "text"],
     limits=dict(quick=dict(query_timeout_ms=30000), thorough=dict(query_timeout_ms=120000, crosscheck_every=3, crosscheck_max=40)),
 )
